@@ -1,4 +1,5 @@
 """C05 on the whole-program machine: theorems in coq/props/C05.v, whole-trace correspondence, monitor(s) ['C05']"""
+from harness import watch
 from harness import machine_prop
 from harness.props._machine_common import TRUSTED, ASSUMPTIONS, RULE  # noqa
 
@@ -120,7 +121,7 @@ def privileged_subclasses(ctx, n):
             await (usim.time + 1)
         case = {'privileged_subclass': dict(type=cls.__name__, after=d, ordinary_failures=others)}
         try:
-            usim.run(main())
+            watch.run(main())
         except BaseException as e:   # noqa
             got.append((e, 'run'))
         ctx.count(case, nontrivial=True)
